@@ -395,6 +395,8 @@ def random_datagram(rng) -> Dg:
                 wellformed = wellformed and cmd in (1, 3, 4, 5, 6, 7)
             body = bytes(rng.randrange(256) for _ in range({1: 0, 3: 4}.get(cmd, 1)))
             opts += bytes([cmd | (0x80 if i < n - 1 else 0), len(body)]) + body
+    if tb & 0x20 and not tb & 0x02 and not opts:
+        wellformed = False  # option flag without options (what follows would be read as options)
     rrs = None
     p = rng.randrange(100)
     if p < 45:
